@@ -97,8 +97,10 @@ def run(ctx, replay):
     # ---- S
     ctx.tlc_check("Replica", "Replica.cfg", workers=12)
     ctx.tlc_check("Replica", "Replica.cfg", overrides={"N": 2, "FullConfig": "TRUE"}, workers=8)
+    # (Replica_nores.cfg = Replica.cfg with NoResurrection as the only invariant: the counterexample lies deep, and
+    # evaluating the read invariants on 2 M states on the way cost two minutes)
     for dev in ('{"StragglersAfterAck"}', '{"RemoveBestEffort"}'):
-        ctx.tlc_check("Replica", "Replica.cfg", overrides={"Deviations": dev}, workers=12, expect_violation="NoResurrection")
+        ctx.tlc_check("Replica", "Replica_nores.cfg", overrides={"Deviations": dev}, workers=12, expect_violation="NoResurrection")
     ctx.tlc_check("Replica", "Replica.cfg", overrides={"Deviations": '{"FetchStopsAtError"}', "N": 2, "FullConfig": "TRUE"}, workers=8,
                   expect_violation="ReadsSurviveLoss")
     ctx.tlc_check("Replica", "Replica.cfg", overrides={"Deviations": '{"StatSkipsFailedReplica"}', "N": 2, "FullConfig": "TRUE"}, workers=8,
